@@ -48,6 +48,22 @@ class OriginFamily(ScenarioFamily):
             pool["proxy"] = {"url": f"{proxy}://sk.test:1080"}
         if proxy != "none" and r.random() < 0.3:
             pool["proxy"]["style"] = "legacy"
+        # a proxy may refuse to establish the stream: nothing meant for the origin may
+        # then be written to it
+        refuse = False
+        rr = gen.mk_rng(seed, "c10refuse")
+        if proxy in ("http", "https") and rr.random() < 0.2:
+            refuse = True
+            st = rr.choice([300, 302, 307, 399, 400, 403, 407, 500, 502, 503])
+            plan = {"status": st, "reason": rr.choice([b"Found", b"Nope", b"OK"]),
+                    "framing": "none", "headers": [], "header_lines": []}
+            if st >= 200 and rr.random() < 0.5:
+                plan.update(framing="cl", body_len=0, headers=[[b"Content-Length", b"0"]],
+                            header_lines=[b"Content-Length: 0"])
+            next(v for v in eps.values() if v["kind"] == "http_proxy")["connect_plan"] = plan
+        elif proxy in ("socks5", "socks5h") and rr.random() < 0.15:
+            refuse = True
+            eps["sk.test:1080"]["reply_code"] = rr.choice([1, 2, 3, 4, 5, 6, 7, 8])
         # a small set of near-miss origins
         base_host = r.choice(HOSTS)
         cands = []
@@ -83,7 +99,8 @@ class OriginFamily(ScenarioFamily):
         scn = {"seed": seed, "exec": self.ex, "pool": pool,
                "net": {"latency": r.choice(["zero", "fixed", "small"]), "seg": "whole",
                        "endpoints": eps},
-               "callers": callers, "epilogue": ["close_pool"], "c10": {"proxy": proxy}}
+               "callers": callers, "epilogue": ["close_pool"],
+               "c10": {"proxy": proxy, "refuse": refuse}}
         if self.ex == "threads":
             scn["policy"] = {"mode": "ops", "op_p": 0.5}
         return scn
@@ -190,8 +207,19 @@ def origin_oracle(res, scn):
         if "h2" in e[6]:
             w.violate("C10", "h2-offered-on-proxy-hop", {"offered": e[6]})
             return
-    # fault-free, well-behaved peers: every request succeeds
+    # fault-free, well-behaved peers: every request succeeds - except that a request
+    # whose stream the proxy refused to establish fails (which error is C15's business)
+    refuse = scn["c10"].get("refuse")
     for key, out in sorted(res.outcomes.items()):
+        if refuse:
+            scheme = parse_url(w.calls[out["token"]]["op"]["url"])[0]
+            tunnelled = not (proxy in ("http", "https") and scheme == "http")
+            if tunnelled:
+                if "status" in out:
+                    w.violate("C10", "refused-stream-used:%s" % proxy,
+                              {"key": key, "outcome": out.get("exc") or out.get("status")})
+                    return
+                continue
         if "exc" in out and out["exc"] != "PoolTimeout":
             w.violate("C10", "request-failed:%s:%s" % (out["exc"], proxy),
                       {"key": key, "msg": out.get("msg"), "url": w.calls[out["token"]]["op"]["url"]})
